@@ -171,7 +171,8 @@ def _collect_ints(x, acc):
     if isinstance(x, bool):
         return
     if isinstance(x, int):
-        acc.add(x)
+        if x != 0:  # 0 is one of the falsy values, never a fresh value: keep it as it is
+            acc.add(x)
     elif isinstance(x, tuple):
         for i in x:
             _collect_ints(i, acc)
@@ -181,7 +182,7 @@ def _rename(x, m):
     if isinstance(x, bool):
         return x
     if isinstance(x, int):
-        return m[x]
+        return m.get(x, x)
     if isinstance(x, tuple):
         return tuple(_rename(i, m) for i in x)
     return x
@@ -204,30 +205,45 @@ def canon(eng, cfg, model, trace):
 # ---------------------------------------------------------------------------
 # write alphabet and read image
 # ---------------------------------------------------------------------------
-def write_labels(cfg, keys):
+# Falsy payloads: a stored 0 / "" / False / empty collection is a value, not a miss.  (None is the
+# engines' documented "absent" answer and is not used as a payload.)
+FALSY = (0, "", False, (), 0.0, [], {})
+
+
+def write_labels(cfg, keys, falsy=False):
     if cfg[0] == "kv":
         kinds = ("put_sync", "put", "del_sync", "del")
     else:
         kinds = ("put_sync", "put", "del")
+    if falsy:
+        kinds = kinds + ("putf_sync", "putf")
     return [(kd, k) for kd in kinds for k in keys]
 
 
 def apply_write(eng, model, lab, val):
+    """Apply one write; returns the payload written (None for a delete).  ``val`` is the fresh step
+    number; the putf* kinds write the falsy payload FALSY[val % len(FALSY)] instead."""
     kd, k = lab
-    if kd == "put_sync":
+    if kd.startswith("putf"):
+        val = FALSY[val % len(FALSY)]
+        val = type(val)() if isinstance(val, (list, dict)) else val
+    if kd in ("put_sync", "putf_sync"):
         eng.put_sync(k, val)
         model[k] = val
-    elif kd == "put":
+        return val
+    if kd in ("put", "putf"):
         drive(eng.put(k, val))
         model[k] = val
-    elif kd == "del":
+        return val
+    if kd == "del":
         drive(eng.delete(k))
         model.pop(k, None)
-    elif kd == "del_sync":
+        return None
+    if kd == "del_sync":
         eng.delete_sync(k)
         model.pop(k, None)
-    else:
-        raise AssertionError(lab)
+        return None
+    raise AssertionError(lab)
 
 
 def ranges(keys):
@@ -320,9 +336,10 @@ def public_shape(eng, cfg):
 # BFS per configuration
 # ---------------------------------------------------------------------------
 def explore_cfg(job):
-    cfg, keys, depth, max_states = job
+    cfg, keys, depth, max_states = job[:4]
+    falsy = bool(job[4]) if len(job) > 4 else False
     t0 = time.process_time()
-    labels = write_labels(cfg, keys)
+    labels = write_labels(cfg, keys, falsy)
     st = {"cfg": cfg, "states": 0, "transitions": 0, "nontriv": 0, "images": set(), "shapes": set(),
           "viol": {}, "exhaustive": True, "caps": [], "levels": [], "samples": [], "reads_mutate": 0,
           "canon_fallback": False, "snapshots": _TOMB is not None or cfg[0] != "lsm"}
@@ -354,9 +371,9 @@ def explore_cfg(job):
                 tr = trace + (lab,)
                 sh = shadow or (lab[1] in hist)
                 try:
-                    apply_write(eng, m, lab, val)
+                    wrote = apply_write(eng, m, lab, val)
                     if lab[0].startswith("put"):
-                        h[lab[1]] = h.get(lab[1], ()) + (val,)
+                        h[lab[1]] = h.get(lab[1], ()) + (wrote,)
                     else:
                         h.setdefault(lab[1], ())
                     st["transitions"] += 1
@@ -419,12 +436,12 @@ def replay_seq(rep):
     print(f"engine {cfg}, keys {keys}")
     for i, lab in enumerate(trace):
         try:
-            apply_write(eng, model, lab, i + 1)
+            wrote = apply_write(eng, model, lab, i + 1)
         except Exception as exc:
             print(f"  step {i}: {lab} value={i + 1} RAISED {type(exc).__name__}: {exc}")
             return 1
         if lab[0].startswith("put"):
-            hist[lab[1]] = hist.get(lab[1], ()) + (i + 1,)
+            hist[lab[1]] = hist.get(lab[1], ()) + (wrote,)
         else:
             hist.setdefault(lab[1], ())
         v = check_image(eng, cfg, model, keys, hist)
